@@ -681,4 +681,45 @@ def clientStep (dv : DeckVariant) (v : Variant) (s : St) (d : Deck) (e : Ev) : D
   let x := deckReact dv d r.outs
   (x.1, { r with outs := x.2.2.1, res := match x.2.2.2 with | some err => .raised err | none => r.res }, x.2.1)
 
+
+/-! ### the retransmission layer under `Memory` (cflib/crazyflie/__init__.py: `Crazyflie.send_packet`,
+`_check_for_answers`, `_no_answer_do_retry`, `_cancel_answer_timers`)
+
+Every chunk request is handed to `cf.send_packet(pk, expected_reply=reply, timeout=1)` where `reply` is the tuple of
+the first five bytes `id, addr32` of THAT packet (`struct.unpack('<BBBBB', pk.data[:-1])` for a read request,
+`struct.unpack('<BBBBB', pk.data)` before the data is appended for a write: Gen `readExpArgs` / `writeExpArgs`).
+On a link with `needs_resending` the Crazyflie object records `pattern = (pk.header,) + expected_reply -> retry timer`;
+every received packet whose `(header,) + data` starts with a recorded pattern cancels that entry BEFORE the port
+callbacks run; a timer that fires while its entry is still recorded transmits the same packet again (and re-arms);
+closing / losing the link forgets all entries.  An entry here is `(channel, packet)`; its pattern is
+`(channel, first five bytes)`. -/
+
+abbrev Retry := List (Nat × List UInt8)
+
+def retryPattern (e : Nat × List UInt8) : Nat × List UInt8 := (e.1, e.2.take 5)
+
+/-- `_check_for_answers(pk)`: the recorded pattern that is a prefix of the received packet is cancelled -/
+def retryCancel (rs : Retry) (chan : Nat) (data : List UInt8) : Retry :=
+  if data.length < 5 then rs else rs.filter fun e => retryPattern e != (chan, data.take 5)
+
+/-- `send_packet(pk, expected_reply=...)` on a link that needs resending: `self._answer_patterns[pattern] = new_timer`
+(an entry with the same pattern is replaced) -/
+def retryRegister (rs : Retry) : List Out → Retry
+  | [] => rs
+  | .send c d :: os => retryRegister ((rs.filter fun e => retryPattern e != (c, d.take 5)) ++ [(c, d)]) os
+  | _ :: os => retryRegister rs os
+
+structure RSt where
+  s : St
+  retry : Retry
+
+/-- one event of the library on a link with (`resend = true`) or without retransmission -/
+def rstep (resend : Bool) (x : RSt) (e : Ev) : RSt × Step :=
+  let retry1 : Retry := match e with
+    | .pkt c d => retryCancel x.retry c d
+    | .disconnect => []
+    | _ => x.retry
+  let r := step Variant.fixed x.s e
+  (⟨r.st, if resend then retryRegister retry1 r.outs else retry1⟩, r)
+
 end CfVerif.C06
